@@ -452,7 +452,7 @@ func (k *Kube) RoundTrip(req *http.Request) (*http.Response, error) {
 	}
 	if strings.Contains(req.URL.Path, "/events") {
 		// Events are fire-and-forget reporting: accepted and dropped
-		k.w.stats.Probe("event posted by the code under test")
+		// (may arrive on a goroutine of the code's event broadcaster: touches no shared state of the simulation)
 		var body []byte
 		if req.Body != nil {
 			body, _ = io.ReadAll(req.Body)
